@@ -14,7 +14,7 @@
 (*                            p % NPARTS = PART                            *)
 (*   QV_SEED                  VERIF_SEED, rotates sampled sub-grids        *)
 (***************************************************************************)
-EXTENDS Impl, TLC, Json, IOUtils, SequencesExt, FiniteSetsExt
+EXTENDS Impl, Big, TLC, Json, IOUtils, SequencesExt, FiniteSetsExt
 
 EnvOr(name, default) == IF name \in DOMAIN IOEnv THEN IOEnv[name] ELSE default
 Tier == EnvOr("QV_TIER", "quick")
@@ -25,8 +25,16 @@ Seed == atoi(EnvOr("QV_SEED", "0"))
 OutFile == EnvOr("QV_OUT", "cases.ndjson")
 
 (* terms as compact JSON arrays *)
+RECURSIVE EncI(_)
+EncI(e) == CASE e.k = "il" -> <<"il", e.n>>
+             [] e.k = "iv" -> <<"iv", e.v>>
+             [] e.k = "io" -> <<"io", e.f, EncI(e.a), EncI(e.b)>>
 RECURSIVE Enc(_)
 Enc(v) == CASE v.k = "q" -> <<"q", v.n, v.d>>
+            [] v.k = "sx" -> <<"sx", v.t, EncI(v.ix)>>
+            [] v.k = "bs" -> <<"bs", v.f, v.v, v.lo, v.hi, Enc(v.body)>>
+            [] v.k = "let" -> <<"let", v.v, Enc(v.val), Enc(v.body)>>
+            [] v.k = "rv" -> <<"rv", v.v>>
             [] v.k = "s" -> <<"s", v.t, v.i>>
             [] v.k = "c" -> <<"c", v.c>>
             [] v.k = "a" -> <<v.f>> \o [i \in DOMAIN v.a |-> Enc(v.a[i])]
